@@ -85,6 +85,9 @@ impl Scenario for C11 {
   fn name(&self) -> &'static str {
     "c11.des"
   }
+  fn weight(&self) -> usize {
+    5
+  }
   fn components(&self) -> (&'static [&'static str], &'static [&'static str]) {
     (
       &["ops/ref_count.rs (ShareOp, ShareOpThreads, RefCountSubscription)", "observable/connectable_observable.rs", "subject.rs", "interval + RepeatTask"],
@@ -467,9 +470,13 @@ fn check_deliveries(
 pub fn check_def() -> PropertyCheck {
   PropertyCheck {
     id: "C11",
-    scenarios: vec![Box::new(C11)],
+    scenarios: vec![
+      Box::new(C11),
+      // subscribers joining share_threads from racing threads: the source must still be subscribed once
+      Box::new(OnlyRules { inner: Box::new(crate::props::c02t::C10Share), keep: &[".source-subscribed-twice"] }),
+    ],
     runs: (300_000, 25_000_000),
-    rule: "case = publish | share (local and _threads) over a hot subject / cold synchronous source / interval on the simulated executor, with a subscription counter and a tap upstream, + history of <=12 acts (subscribe, unsubscribe k, emit, source complete/error, connect, run tasks, advance clock); non-trivial = >=2 subscribers or the last share subscriber left; distinct = distinct (case, behaviour) hashes",
+    rule: "case = publish | share (local and _threads) over a hot subject / cold synchronous source / interval on the simulated executor, with a subscription counter and a tap upstream, + history of <=12 acts (subscribe, unsubscribe k, emit, source complete/error, connect, run tasks, advance clock); non-trivial = >=2 subscribers or the last share subscriber left; distinct = distinct (case, behaviour) hashes; plus the c10.share thread scenario (2-3 threads subscribing to / emitting into one share_threads pipeline under seeded lock-level schedules) judged only by 'the source is subscribed once'",
     assumptions: vec!["a subscriber that joins a share() after everybody had left is judged only by the presence rule (it must receive what the source still emits on the share's behalf, as seen by the upstream tap)"],
   }
 }
